@@ -291,6 +291,18 @@ def run_variants(mod, tier, total):
         total['caps'].extend(sub.get('caps', []))
 
 
+def apply_process_environment():
+    """environment answers a variant fixes inside the child interpreter (cli calls this first, for unit runs and replays alike)"""
+    if os.environ.get('VERIF_CPU_COUNT'):
+        # a host with that many processors: what os.cpu_count and friends answer is the environment's choice
+        n = int(os.environ['VERIF_CPU_COUNT'])
+        import multiprocessing
+        os.cpu_count = lambda: n
+        multiprocessing.cpu_count = lambda: n
+        if hasattr(os, 'sched_getaffinity'):
+            os.sched_getaffinity = lambda pid=0: set(range(n))
+
+
 def variant_child(mod, tier, name):
     """runs in the child interpreter: the variant's units, result as one JSON line"""
     import types
